@@ -13,6 +13,7 @@ import SyslModel.Ints.Proto
 import SyslModel.SeqDiag.Proto
 import SyslModel.Relmod.Proto
 import SyslModel.Eval.Proto
+import SyslModel.Compile.Proto
 
 open Lean (Json)
 open SyslModel
@@ -26,6 +27,7 @@ def dispatch (op : String) (j : Json) : Option Json :=
   else if op.startsWith "sd." then SeqDiag.handle op j
   else if op.startsWith "relmod." then Relmod.handle op j
   else if op.startsWith "eval." then Eval.handle op j
+  else if op.startsWith "compile." then Compile.handle op j
   else none
 
 def handleLine (line : String) : String :=
